@@ -22,7 +22,7 @@ pub fn info() -> PropInfo {
         id: "C10",
         run,
         replay,
-        rule: "cases = strings and numeric character references. Enumerated: every string up to length N over {< > & ' \" # x ; 0 9 a A e-acute space}; ALL code points 0..0x110000 and 0x100 beyond in five spellings; a table of malformed references; generated: proptest Unicode strings rich in specials and reference look-alikes. Oracles: unescape(f(s)) == s for f in escape/partial_escape/minimal_escape, f(s) contains none of the characters that level removes and no '&' that does not start one of the five entities or a character reference, a string without '&' unescapes to itself borrowed, unescape(s) for arbitrary s equals an independent reference implementation (value or error), valid non-zero scalar -> exactly that char, everything else -> Err. Non-trivial = the string contains at least one of < > & ' \" / the code point is a valid scalar.",
+        rule: "cases = strings and numeric character references. Enumerated: every string up to length N over {< > & ' \" # x ; 0 9 a A e-acute space}; ALL code points 0..0x110000 and 0x100 beyond in five spellings; a table of malformed references; generated: proptest Unicode strings rich in specials and reference look-alikes. Oracles: unescape(f(s)) == s for f in escape/partial_escape/minimal_escape, f(s) contains none of the characters that level removes and no '&' that does not start one of the five entities or a character reference, a string without '&' unescapes to itself borrowed, unescape(s) for arbitrary s equals an independent reference implementation (value or error), valid non-zero scalar -> exactly that char, everything else -> Err. Non-trivial = the string contains at least one of < > & ' \" / the code point is a valid scalar. An offset sweep places every special / reference form after 0..=130 plain bytes (ASCII or two-byte characters) and before 0..=40 more.",
         assumptions: &["built without the escape-html feature: the entity set is the five XML entities", "only a lowercase 'x' introduces a hexadecimal reference (XML)"],
         level: "exploration",
         variants: &["full"],
